@@ -37,7 +37,7 @@ def monitor(ctx, pid, events, name="trace.ndjson"):
     ctx.cov["states"] += r.distinct
     ctx.cov["transitions"] += r.generated
     if r.invariant_violated:
-        ls = [int(x) for x in re.findall(r"^/\\ l = (\d+)$", r.counterexample(), re.M)]
+        ls = [int(x) for x in re.findall(r"^/\\ l = (\d+)$", r.out, re.M)]
         idx = (max(ls) - 2) if ls else None
         return False, idx
     hw = None
